@@ -34,6 +34,13 @@ def step (st : St) : List String → St × String
       match cstep st.c a with
       | none => (st, "rejected " ++ cline st.c)
       | some c' => ({ st with c := c' }, "ok " ++ cline c')
+  | ["c", "revert", r] =>
+    match r.toNat? with
+    | none => (st, "bad-op")
+    | some r =>
+      match revertRoot st.c r with
+      | none => (st, "rejected " ++ cline st.c)
+      | some c' => ({ st with c := c' }, "ok " ++ cline c')
   | ["pnew"] => ({ st with p := pinit }, "ok " ++ pline pinit)
   | ["p", "commit", b] =>
     match b.toNat? with
